@@ -561,6 +561,33 @@ def build(run):
                 if not isinstance(r, int):
                     return r
                 n += r
+        # ... also with user-supplied coefficient derivatives (chain rule through f2 = f2(f)): forwarded to every component of a sum
+        f2_ = P["f2"]
+        J2 = f2_ * f * dx
+        for cdn, cd in (("df2/df = 2", {f2_: 2}), ("df2/df = f", {f2_: f})):
+            for name, parts in (("2*J2 + 3*c_V(f)", [(J2, 2), (Action(P["c_V"], f), 3)]), ("L2(v) + c_V", [(P["L2(v)"], 1), (P["c_V"], 1)]),
+                                ("2*L2(v) - 3*c_V + L(v)", [(P["L2(v)"], 2), (P["c_V"], -3), (P["L(v)"], 1)])):
+                Ssum = None
+                for x_, w_ in parts:
+                    term_ = w_ * x_ if w_ != 1 else x_
+                    Ssum = term_ if Ssum is None else Ssum + term_
+                try:
+                    got = expand_derivatives(derivative(Ssum, f, coefficient_derivatives=cd))
+                    dparts = [(M.den(expand_derivatives(derivative(x_, f, coefficient_derivatives=cd))), w_) for x_, w_ in parts]
+                except Exception as ex:  # noqa: BLE001
+                    return violated(f"derivative({name}, f, coefficient_derivatives {cdn}) raised {type(ex).__name__}: {ex}", replay={"case": name}, reproduced=True)
+                ref_slots = next((d_[0] for d_, _ in dparts if d_ is not None and d_[1]), None)
+                if ref_slots is None:
+                    continue
+                zero_ = None
+                for d_, _ in dparts:
+                    if d_ is not None and d_[1]:
+                        zero_ = (d_[0], {ix: 0 for ix in d_[1]})
+                dparts = [(d_ if d_ is not None and d_[1] else zero_, w_) for d_, w_ in dparts]
+                r = compare(M, f"derivative({name}, f; {cdn}) == weighted sum of the components' derivatives", got, M.sum_spec(dparts), None)
+                if not isinstance(r, int):
+                    return r
+                n += r
         # d/dc c = identity (Coargument)
         c = P["c_V"]
         got = expand_derivatives(derivative(c, c))
